@@ -115,14 +115,19 @@ int main(int argc, char * argv[], char * envp[])
       // Ledger is being invoked as a script command interpreter
       global_scope->session().read_journal_files();
 
+      const string script_file(global_scope->HANDLER(script_).str());
+      ifstream in(script_file);
+      if (! in.good())
+        throw_(std::runtime_error,
+               _f("Cannot read script file '%1%'") % script_file);
+
       status = 0;
 
-      ifstream in(global_scope->HANDLER(script_).str());
-      while (status == 0 && ! in.eof()) {
-        char line[1024];
-        in.getline(line, 1023);
-
-        char * p = skip_ws(line);
+      std::string line;
+      while (status == 0 && std::getline(in, line)) {
+        const char * p = line.c_str();
+        while (std::isspace(static_cast<unsigned char>(*p)))
+          p++;
         if (*p && *p != '#')
           status =
             global_scope->execute_command_wrapper(split_arguments(p), true);
